@@ -74,6 +74,10 @@ _TRI = {"d": None, "t": True, "f": False}
 
 
 def _default_value(d):
+    if d["ty"] == "NoneType":
+        return None
+    if d["ty"] == "bool":
+        return d["v"] == "True"
     return {"int": int, "str": str, "float": float}[d["ty"]](d["v"])
 
 
@@ -178,7 +182,7 @@ def enc_cfg(cfg, c03):
                       "defaults": [{"name": d["name"], "ty": d["ty"], "v": cps(d["v"])} for d in r["defaults"]],
                       "alias": r["alias"]})
     b = cfg["bind"]
-    return {"op": "cfg", "rules": rules, "map": cfg["map"], "c03": c03,
+    return {"op": "cfg", "rules": rules, "map": cfg["map"], "c03": c03, "c12": cfg.get("c12", True), "canon": cfg.get("canon", False),
             "bind": {"scheme": cps(b["scheme"]), "server": cps(b["server"].lower()), "script": cps(b["script"]), "sub": cps(b["sub"])}}
 
 
@@ -589,3 +593,189 @@ def alias_group_paths(rules, rng, limit):
     rest = [p for p in res if p not in set(al)]
     rng.shuffle(rest)
     return (al + rest)[:limit]
+
+
+# ---------------------------------------------------------------------------- the repository's own tests (recorded calls)
+STD_CONV = {"default": "UnicodeConverter", "string": "UnicodeConverter", "int": "IntegerConverter", "float": "FloatConverter",
+            "any": "AnyConverter", "uuid": "UUIDConverter", "path": "PathConverter"}
+_UNRESERVED = set("abcdefghijklmnopqrstuvwxyzABCDEFGHIJKLMNOPQRSTUVWXYZ0123456789-._")
+
+
+class Skip(Exception):
+    pass
+
+
+def _int_arg(a):
+    if a["ty"] != "int":
+        raise Skip("converter_args")
+    return int(a["v"])
+
+
+def _conv_seg(tok, pre, post, cls):
+    conv, name = tok["conv"], tok["name"]
+    if conv not in STD_CONV or not cls.endswith("converters." + STD_CONV[conv]):
+        raise Skip("custom_converter")
+    args, kw = tok["args"], dict(tok["kwargs"])
+    if conv in ("default", "string"):
+        for key, a in zip(("minlength", "maxlength", "length"), args):
+            kw.setdefault(key, a)
+        if set(kw) - {"minlength", "maxlength", "length"}:
+            raise Skip("converter_args")
+        if "length" in kw and kw["length"]["ty"] != "NoneType":
+            return var("strlen", name, pre, post, n=_int_arg(kw["length"]))
+        n = _int_arg(kw["minlength"]) if "minlength" in kw else 1
+        m = _int_arg(kw["maxlength"]) if "maxlength" in kw and kw["maxlength"]["ty"] != "NoneType" else 0
+        if n < 1:
+            raise Skip("converter_args")
+        return var("string", name, pre, post, n=n, m=m)
+    if conv == "int":
+        for key, a in zip(("fixed_digits", "min", "max", "signed"), args):
+            kw.setdefault(key, a)
+        if set(kw) - {"fixed_digits", "signed"}:
+            raise Skip("converter_args")
+        signed = kw.get("signed", {"v": "False"})["v"] == "True"
+        n = _int_arg(kw["fixed_digits"]) if "fixed_digits" in kw else 0
+        if n and signed:
+            raise Skip("converter_args")
+        return var("int", name, pre, post, n=n, signed=signed)
+    if conv == "float":
+        if args or set(kw) - {"signed"}:
+            raise Skip("converter_args")
+        return var("float", name, pre, post, signed=kw.get("signed", {"v": "False"})["v"] == "True")
+    if conv == "any":
+        if kw or not args or any(a["ty"] != "str" or "/" in a["v"] for a in args):
+            raise Skip("converter_args")
+        return var("any", name, pre, post, items=[a["v"] for a in args])
+    if args or kw:
+        raise Skip("converter_args")
+    if conv == "path" and (pre or post):
+        raise Skip("path_converter_with_affix")
+    return var(conv, name, pre, post)
+
+
+def translate_rule(r):
+    """recorded rule -> rule record of the grammar (raises Skip with the reason)"""
+    toks = r["tokens"]
+    if toks is None or not toks or toks[0]["t"] != "slash":
+        raise Skip("unparsed_rule")
+    segs, cur = [], []
+    for t in toks[1:]:
+        if t["t"] == "slash":
+            segs.append(cur)
+            cur = []
+        else:
+            cur.append(t)
+    branch = not cur and len(toks) > 0
+    if cur:
+        segs.append(cur)
+    out = []
+    if r["merge"]:
+        # documented: with merge_slashes the rule's own consecutive slashes are merged
+        segs = [sg for sg in segs if sg]
+    for sg in segs:
+        if not sg:
+            raise Skip("double_slash_in_rule_without_merge")
+        vs = [t for t in sg if t["t"] == "var"]
+        if len(vs) > 1:
+            raise Skip("several_variables_in_segment")
+        if not vs:
+            out.append(lit("".join(t["s"] for t in sg)))
+            continue
+        i = sg.index(vs[0])
+        pre = "".join(t["s"] for t in sg[:i])
+        post = "".join(t["s"] for t in sg[i + 1:])
+        out.append(_conv_seg(vs[0], pre, post, r["convclasses"].get(vs[0]["name"], "")))
+    npath = [i for i, s in enumerate(out) if s["conv"] == "path"]
+    if len(npath) > 1:
+        raise Skip("several_path_converters")
+    if npath and npath[0] != len(out) - 1:
+        raise Skip("path_converter_not_last")
+    names = [s["name"] for s in out if s["k"] == "var"]
+    if len(set(names)) != len(names):
+        raise Skip("duplicate_variable")
+    defaults = []
+    for k, v in (r["defaults"] or []):
+        if v["ty"] not in ("str", "int", "float", "bool", "NoneType"):
+            raise Skip("defaults_value_type")
+        if k in names:
+            raise Skip("default_for_path_variable")
+        defaults.append({"name": k, "ty": v["ty"], "v": v["v"]})
+    return rule(out, branch=branch and bool(out) or not out, methods=r["methods"],
+                strict="t" if r["strict"] else "f", merge="t" if r["merge"] else "f",
+                defaults=defaults, alias=r["alias"])
+
+
+def translate_call(c):
+    """recorded MapAdapter.match call -> (cfg in the grammar, case tuple, recorded outcome lines) or raises Skip"""
+    m, b = c["map"], c["bind"]
+    if m["host_matching"]:
+        raise Skip("host_matching")
+    if m["custom_converters"]:
+        raise Skip("custom_converter")
+    if not c["path_is_str"]:
+        raise Skip("path_not_str")
+    if any(r["redirect_to"] for r in m["rules"]):
+        raise Skip("redirect_to")
+    if c["r"]["exc"] == "WebsocketMismatch" or any(h["r"]["exc"] == "WebsocketMismatch" for h in c["follow"]):
+        raise Skip("websocket_mismatch_outcome")
+    sub = b["sub"] or ""
+    c12 = True
+    rules, index, eps = [], {}, {}
+    for i, r in enumerate(m["rules"]):
+        if "<" in (r["subdomain"] or ""):
+            raise Skip("subdomain_variable")
+        if r["build_only"] or (r["subdomain"] or "") != sub or r["websocket"] != c["websocket"]:
+            # cannot match this request (a rule of the other websocket kind only turns a 404 into WebsocketMismatch).
+            # In a map with defaults / alias rules the canonicalising redirect may be built from it (other host,
+            # unknown denotation): then only the matching clauses apply
+            if any(x["defaults"] or x["alias"] for x in m["rules"]):
+                c12 = False
+            continue
+        tr = translate_rule(r)
+        tr["endpoint"] = eps.setdefault(r["endpoint"], f"ep{len(eps) + 1}")
+        rules.append(tr)
+        index[i + 1] = len(rules)
+    if not rules:
+        raise Skip("no_rule_on_bound_subdomain")
+    q = c["q"]
+    if q["kind"] == "other" or (q["kind"] == "map" and not all(set(k) <= _UNRESERVED and set(v) <= _UNRESERVED and k and v
+                                                               for k, v in q["pairs"])):
+        c12, q = False, NOQ
+    for x in [c["r"]] + [h["r"] for h in c["follow"]]:
+        for _, v in x["args"]:
+            if v["ty"] not in ("str", "int", "float", "UUID", "bool", "NoneType"):
+                raise Skip("argument_value_type")
+    # canonicalising redirects can come from any rule of the map, also from one on another subdomain
+    canon = m["rd"] and any(r["defaults"] or r["alias"] for r in m["rules"])
+    cfg = {"rules": rules, "map": {"strict": m["strict"], "merge": m["merge"], "rd": m["rd"]},
+           "bind": {"scheme": b["scheme"], "server": b["server"], "script": b["script"], "sub": sub},
+           "c12": c12, "canon": bool(canon)}
+
+    def out(o):
+        return {"kind": o["kind"], "rule": index.get(o["rule"], 0), "url": cps(o["url"]), "methods": o["methods"], "exc": o["exc"],
+                "args": [{"name": k, "ty": v["ty"], "v": cps(v["v"])} for k, v in o["args"]]}
+
+    line = {"op": "match", "path": cps(c["path"]), "method": c["method"],
+            "q": {"kind": q["kind"], "s": cps(q["s"]), "pairs": [[cps(k), cps(v)] for k, v in q["pairs"]]},
+            "r": out(c["r"]), "follow": [{"path": cps(h["path"]), "r": out(h["r"])} for h in c["follow"]]}
+    return cfg, line, q
+
+
+def record_repo_tests(tmp, files=("tests/test_routing.py", "tests/middleware/test_proxy_fix.py")):
+    """Run the repository's routing tests under harness/pytest_routing_plugin.py; returns (calls, pytest tail)."""
+    import json
+    import os
+    import subprocess
+    import sys
+
+    from .core import REPO, VERIF
+
+    out = os.path.join(tmp, "routing-calls.json")
+    env = dict(os.environ, VERIF_TRACE_OUT=out, PYTHONPATH=VERIF + os.pathsep + os.path.join(REPO, "src"),
+               PYTHONDONTWRITEBYTECODE="1")
+    p = subprocess.run([sys.executable, "-m", "pytest", "-q", "-p", "no:cacheprovider", "-p", "harness.pytest_routing_plugin",
+                        "--no-header", "-n", "0", *files], cwd=REPO, env=env, capture_output=True, text=True, timeout=600)
+    tail = (p.stdout + p.stderr)[-1500:]
+    if not os.path.exists(out):
+        return None, tail
+    return json.load(open(out)), tail
